@@ -55,3 +55,22 @@ def interp(spec):
             'witness': {'inputs': {'text_template': v['template'], 'binding': 'a=7'},
                         'detail': 'expected %r, observed %r' % (v['expected'], v['observed'])}})
     return out
+
+
+def attrs(spec):
+    t0 = time.time()
+    size = 3 if spec.get('tier') != 'thorough' else 4
+    r = _run('attrs.py', [REPO, size])
+    out = {'unit': 'B-ATTR', 'obligations': [], 'wall': time.time() - t0,
+           'bounded': [{'id': 'B-ATTR', 'function': 'tal.py::prepare_attributes',
+                        'bound': r['bound'], 'cases': r['cases'], 'distinct': r['distinct']}]}
+    if r.get('violation'):
+        v = r['violation']
+        out['obligations'].append({
+            'name': 'B-ATTR', 'expect': 'valid', 'status': 'failed', 'backend': 'bounded',
+            'time': 0.0, 'okind': 'bounded', 'tried': 'enumeration', 'confirmed': True,
+            'text': 'prepare_attributes merges static, dynamic and i18n attributes as the property '
+                    'prescribes (independent specification)',
+            'witness': {'inputs': {k: v[k] for k in ('static', 'dynamic', 'i18n')},
+                        'detail': 'expected (name, expr) %r, observed %r' % (v['expected'], v['observed'])}})
+    return out
